@@ -99,6 +99,18 @@ Definition objStreamOK (n first : Z) (l : limits) : bool :=
   negb ((n <=? 0) || (MaxObjectStreamCount l <? n)) &&
   negb ((first <? 0) || (MaxObjectStreamFirst l <? first)).
 
+(* parse.go ObjectStreamDictWithLimits, the struct it builds: ObjCount, FirstObjOffset and the
+   MaxDecodeBytes field := limits.MaxDecodeBytes (mdb) that the lazy full decode will use *)
+Record osd := mkosd { o_count : Z; o_first : Z; o_mdb : Z }.
+Definition objectStreamDictWithLimits (n first : Z) (l : limits) (mdb : Z) : res osd :=
+  if objStreamOK n first l then Ok (mkosd n first mdb) else Err.
+
+(* read.go parseObjectStream: the prolog decode DecodeLengthWithLimit(FirstObjOffset, limits.MaxDecodeBytes) *)
+Definition osdPrologDecode (o : osd) (mdb avail : Z) : dres := copyDecoded mdb avail (o_first o).
+(* streamdict.go LazyObjectStreamObject.GetData: osd.DecodeWithLimit(osd.MaxDecodeBytes)
+   = DecodeLengthWithLimit(-1, osd.MaxDecodeBytes): the whole content, under the limit stored in the struct *)
+Definition osdFullDecode (o : osd) (avail : Z) : dres := copyDecoded (o_mdb o) avail (-1).
+
 (* safemath.MultiplyInt64 as proved in C42 (exact or error, negative operands rejected) *)
 Definition mul64 (a b : Z) : res Z :=
   if (0 <=? a) && (0 <=? b) && (a * b <=? maxInt64) then Ok (a * b) else Err.
@@ -117,11 +129,15 @@ Definition imageOK (w h : Z) (l : limits) : res (Z * Z) :=
        end.
 
 (* ---- decode call sites (table produced by go/cmd/genc09 into Generated.v) ---- *)
-Inductive limit_kind := LConfigured | LDefault.
+(* LField: the limit is read from a struct field X.MaxDecodeBytes (LazyObjectStreamObject.GetData reads
+   osd.MaxDecodeBytes); what it holds is decided by the constructions of that struct (second table) *)
+Inductive limit_kind := LConfigured | LDefault | LField.
 Record site := mksite { s_file : string; s_func : string; s_call : string; s_kind : limit_kind }.
 
 Definition is_configured (s : site) : bool :=
-  match s_kind s with LConfigured => true | LDefault => false end.
+  match s_kind s with LConfigured => true | LDefault => false | LField => true end.
+Definition is_field (s : site) : bool :=
+  match s_kind s with LField => true | _ => false end.
 Definition same_site (a : string * string) (s : site) : bool :=
   (String.eqb (fst a) (s_file s)) && (String.eqb (snd a) (s_func s)).
 Definition site_ok (known : list (string * string)) (s : site) : bool :=
